@@ -201,6 +201,29 @@ def electrons_and_grains(v: List[int]) -> bool:
         return bool(sp.is_grain) and sp.charge == q and dict(sp.element_count) == {"GRAIN": 1}
 
 
+GRAIN_SYMS = ["GRAIN", "DUST", "Gr"]
+GROUPS = ["", "0", "1", "2", "3", "12"]
+GCHARGES = ["", "+", "-", "--", "++", "+++"]
+
+
+def grain_symbols_with_group_numbers(v: List[int]) -> bool:
+    """
+    pre: len(v) == 3 and all(0 <= x < 6 for x in v)
+    post: _ == True
+    """
+    a, b, c = prelude.concrete(v)
+    with prelude.NoTracing():
+        _setup()
+        sym, grp, ch = GRAIN_SYMS[a % 3], GROUPS[b], GCHARGES[c]
+        name = f"{sym}{grp}{ch}"
+        sp = Species(name, grain_symbol=sym) if sym != "GRAIN" else Species(name)
+        q = ch.count("+") - ch.count("-")
+        group = int(grp) if grp else 0
+        # a grain is one particle whatever its group number: the number is a label (size bin), not a count
+        return (bool(sp.is_grain) and sp.charge == q and dict(sp.element_count) == {sym: 1} and sp.grain_group == group and sp.n_atoms == 1
+                and bool(sp.is_atom) == (q == 0) and not sp.is_surface and not sp.is_electron and sp.basename == f"{sym}{grp}")
+
+
 BAD = ["H2x", "Hx", "xH", "H?", "2H", "H2O!", "C_2", "h2", "He 2", "Q", "H2+o", "H.2", "H-2", "CO@", "Zz"]
 
 
